@@ -7,6 +7,10 @@ Nus == {<<-1, 2>>, <<0, 1>>, <<1, 4>>, <<3, 10>>, <<2, 5>>}
 Normal == {-2, 0, 1}
 Qs == {<<-2, 1>>, <<-1, 1>>, <<-1, 2>>, <<0, 1>>, <<1, 10>>, <<1, 5>>, <<1, 2>>, <<1, 1>>, <<3, 2>>}
 I(n) == <<n, 1>>
+Rs32 == {<<-3, 2>>, <<-1, 1>>, <<-1, 2>>, <<0, 1>>, <<1, 4>>, <<1, 2>>, <<1, 1>>, <<3, 2>>, <<2, 1>>}
+NusEdge == {<<131071, 262144>>, <<255, 512>>, <<-1023, 1024>>, <<49, 100>>}
+Sq(r) == RMul(<<RSgn(r), 1>>, RMul(r, r))
+ROStrain32(E, K, r) == << RDiv(RMul(K, Sq(r)), E), RMul(<<RSgn(r), 1>>, RPow(RAbs(r), 3)) >>
 Init ==
   \/ /\ part = "hooke" /\ inp \in [E : Es, nu : Nus, s : {<<I(a), I(b), I(c), I(d), I(e), I(f)>> : a \in Normal, b \in Normal, c \in Normal, d \in {0, 3}, e \in {0, -1}, f \in {0, 2}}]
      /\ out = [strain3d |-> Strain3D(inp.E, inp.nu, inp.s),
@@ -16,6 +20,12 @@ Init ==
   \/ /\ part = "ro" /\ inp \in [E : {<<100, 1>>, <<210000, 1>>}, K : {<<10, 1>>, <<1000, 1>>}, m : {2, 3, 5, 8}, q : Qs]
      /\ out = [strain |-> ROStrain(inp.E, inp.K, inp.m, inp.q), compliance |-> ROCompliance(inp.E, inp.K, inp.m, inp.q),
                delta_strain |-> IF inp.q[2] > 5 THEN <<R0, R0>> ELSE RODeltaStrain(inp.E, inp.K, inp.m, inp.q)]     \* (q/2)^8 of q = 1/10 does not fit 32 bits
+  \* n = 2/3 (exponent 3/2): rational on stress levels that are squares, q = sgn(r) r^2  =>  (|q|)^(3/2) = |r|^3.   Covers 1/2 < n < 1.
+  \/ /\ part = "ro32" /\ inp \in [E : {<<100, 1>>, <<210000, 1>>}, K : {<<10, 1>>, <<1000, 1>>}, r : Rs32]
+     /\ out = [strain |-> ROStrain32(inp.E, inp.K, inp.r)]
+  \* shear and bulk modulus over the whole admissible range of nu, up to 4e-6 below 1/2 and 1e-3 above -1
+  \/ /\ part = "moduli" /\ inp \in [E : Es, nu : Nus \cup NusEdge]
+     /\ out = [G |-> GMod(inp.E, inp.nu), K |-> KMod(inp.E, inp.nu)]
 Next == UNCHANGED vars
 Spec == Init /\ [][Next]_vars
 
@@ -32,6 +42,10 @@ PlaneInverse == part = "hooke" =>
 ROOddIncreasing == part = "ro" =>
   /\ ROStrain(inp.E, inp.K, inp.m, RNeg(inp.q)) = PNeg(out.strain)
   /\ \A q2 \in Qs : RLt(inp.q, q2) => LET s2 == ROStrain(inp.E, inp.K, inp.m, q2) IN RLt(out.strain[1], s2[1]) /\ (RSgn(s2[2]) >= RSgn(out.strain[2]))    \* the plastic part (an odd power of q) is compared by sign only: cross products overflow
+RO32OddIncreasing == part = "ro32" =>
+  /\ ROStrain32(inp.E, inp.K, RNeg(inp.r)) = PNeg(out.strain)
+  /\ \A r2 \in Rs32 : RLt(inp.r, r2) => LET s2 == ROStrain32(inp.E, inp.K, r2) IN RLt(out.strain[1], s2[1]) /\ RLe(out.strain[2], s2[2])
+ModuliPositive == part = "moduli" => RLt(R0, out.G) /\ RLt(R0, out.K) /\ out.K = RDiv(inp.E, RMul(<<3, 1>>, RSub(R1, RMul(R2, inp.nu))))
 ROMasing == (part = "ro" /\ inp.q[2] <= 5) => /\ out.delta_strain = PMul2(ROStrain(inp.E, inp.K, inp.m, RDiv(inp.q, R2)))
                            /\ ROLowerHysteresis(inp.E, inp.K, inp.m, inp.q, inp.q) = out.strain
                            /\ RLt(R0, out.compliance[1]) /\ RLe(R0, out.compliance[2])
